@@ -8,7 +8,7 @@ import re
 import time
 from typing import Any
 
-from .. import semgen, semlean, semrun
+from .. import semfam, semgen, semlean, semrun
 from ..runner import Check
 from ..translate import constraints as tconstraints
 
@@ -337,6 +337,34 @@ def causes_for(doc: dict, inst: Any, style: str, oracle: str = "valid_rejected")
         return "v1_regex_anchored"
     if style == "v1" and union_str_before_number(doc):
         return "v1_union_left_to_right"
+    return null_place_cause(doc, inst)
+
+
+# where the pinned tree loses the `null` of a type list `["array", "null"]` / `["object", "null"]` (known findings
+# D45 / D45b / D46); every other (kind, position) is accepted and has no cause
+NULL_LOST_EVERYWHERE = [("array", "array_item"), ("array", "map_value"), ("array", "root"), ("object_props", "root")]
+NULL_LOST_WITHOUT_MEMBER_OPTIONAL = [("array", "member"), ("array", "union_alt/member")]
+
+
+def _has_null(v: Any) -> bool:
+    if v is None:
+        return True
+    if isinstance(v, dict):
+        return any(_has_null(x) for x in v.values())
+    if isinstance(v, list):
+        return any(_has_null(x) for x in v)
+    return False
+
+
+def null_place_cause(doc: dict, inst: Any) -> str:
+    """`null_at_nullable_<kind>@<position>` when the instance carries null under a nullable type list at one of
+    the places listed above (the first in that order), else `none`""" 
+    if not _has_null(inst):
+        return "none"
+    places = semfam.null_places(doc, semlean.body_of(doc), inst)
+    for kp in NULL_LOST_EVERYWHERE + NULL_LOST_WITHOUT_MEMBER_OPTIONAL:
+        if kp in places:
+            return f"null_at_nullable_{kp[0]}@{kp[1]}"
     return "none"
 
 
@@ -677,6 +705,42 @@ def campaign_random(ck: Check, n: int) -> None:
     camp.wall_s = time.time() - t0
 
 
+FAMILY_TARGETS = [*TARGETS, ("dataclasses.dataclass",), ("typing.TypedDict",)]
+
+
+def campaign_family(ck: Check, n_nullable: int, n_nested: int) -> None:
+    """two families the general generator does not reach (vlib/semfam.py), every document through every target"""
+    ca = ck.campaign("e2e oracle, family: nullable type lists [T, \"null\"] for every type T × every position, null instances at exactly that position")
+    cb = ck.campaign("e2e oracle, family: combinations (allOf / oneOf / anyOf) nested in allOf members, with and without sibling properties, instances carrying the nested members")
+    for camp, n, gen, fork in ((ca, n_nullable, semfam.nullable_doc, "fam-nullable"), (cb, n_nested, semfam.nested_allof_doc, "fam-nested")):
+        t0 = time.time()
+        rng = ck.rng.fork(fork)
+        off = rng.below(96)
+        for i in range(n):
+            plain = i % 2 == 1  # dataclass output has no aliases: plain member names in every second document
+            doc, feats, cand = gen(rng.fork(str(i)), off + i, plain)
+            insts = [c for c in cand if semgen.is_valid(doc, c)]
+            camp.hit("instance:constructed_for_the_family", len(insts))
+            if len(insts) < len(cand):
+                camp.hit("candidate_not_valid", len(cand) - len(insts))
+            for x in semgen.valid_instances(doc, limit=12):
+                if x not in insts:
+                    insts.append(x)
+            for f in feats:
+                camp.hit(f"feature:{f}")
+            try:
+                semlean.schema_sx(semlean.body_of(doc), top=True)
+                semlean.defs_sx(doc)
+                camp.hit("lean_model:covered")
+            except semlean.Unmodelled as e:
+                camp.hit(f"lean_model:outside ({str(e)[:50]})")
+            for t in FAMILY_TARGETS:
+                if t[0] == "dataclasses.dataclass" and not plain:
+                    continue
+                oracle_doc(ck, camp, doc, t, insts)
+        camp.wall_s = time.time() - t0
+
+
 # ============================================================ search, findings, replay
 def search(ck: Check) -> None:
     camp = ck.campaign("search: focused corpus + keyword documents after a broken obligation / correspondence")
@@ -723,6 +787,7 @@ def run(ck: Check) -> None:
     campaign_model(ck, 40 if quick else 400)
     campaign_focused(ck)
     campaign_random(ck, 70 if quick else 900)
+    campaign_family(ck, 16 if quick else 130, 12 if quick else 100)
     ck.search_hooks.append(search)
     known_findings(ck)
 
